@@ -142,26 +142,68 @@ def run(ctx, rep):
         if not ok:
             rep.finding(R2, f'C16.R2/current_step/{nhist}/{built}', m.loc(TAB, cs), 'Tableau.current_step', f'with {nhist} history entries and trunk built={built} gives {r!r}, expected {nhist + (1 if built else 0)}')
     ra = m.func(TAB, 'Rule.apply')
-    rep.consult(m.loc(TAB, ra) + ' Rule.apply')
-    log = []
+    ri = m.func(TAB, 'Rule.__init__')
+    rep.consult(m.loc(TAB, ra) + ' Rule.apply', m.loc(TAB, ri) + ' Rule.__init__')
+    # the constructor and apply() folded together over a small event emitter, for both values of `nolock`: whatever is done
+    # inline and whatever through listeners registered at construction, one application announces BEFORE_APPLY, runs _apply,
+    # announces AFTER_APPLY (helpers and the rule's own history hear it) and then tells the tableau once, AFTER_RULE_APPLY
+    import collections as _col
 
-    class CM:
-        def __enter__(s_):
-            log.append('timer-on')
+    class _State(int):
+        INIT, LOCKED = 1, 2
 
-        def __exit__(s_, *a):
-            log.append('timer-off')
-    rule = _O('rule', __srcclass__=(m, ClassRef(TAB, 'Rule')), timers={'apply': CM()}, emit=lambda ev, *a: log.append(('rule-emit', ev, a)),
-              _apply=lambda t: log.append(('_apply', t)), tableau=_O('tableau', emit=lambda ev, *a: log.append(('tableau-emit', ev, a))))
-    ita = _I(dict(Rule=_O('Rule', Events=_O('Events', BEFORE_APPLY='BEFORE_APPLY', AFTER_APPLY='AFTER_APPLY')),
-                  Tableau=_O('Tableau', Events=_O('Events', AFTER_RULE_APPLY='AFTER_RULE_APPLY'))), where='Rule.apply')
-    r = ita.safe(ra, [rule, 'TARGET'])
-    core = [x for x in log if isinstance(x, tuple)]
-    want = [('rule-emit', 'BEFORE_APPLY', ('TARGET',)), ('_apply', 'TARGET'), ('rule-emit', 'AFTER_APPLY', ('TARGET',)), ('tableau-emit', 'AFTER_RULE_APPLY', ('TARGET',))]
-    ok = not isinstance(r, _Rs) and core == want and 'final' in astq.decorators(ra)
-    rep.instance(R2, ok=ok, sample=dict(sequence=[x[:2] for x in core]), nontrivial='Rule.apply')
-    if not ok:
-        rep.finding(R2, 'C16.R2/Rule.apply', m.loc(TAB, ra), 'Rule.apply', f'is not the @final BEFORE_APPLY -> _apply -> AFTER_APPLY -> AFTER_RULE_APPLY on the target (observed {core})')
+        def __or__(s_, o):
+            return _State(int(s_) | int(o))
+    for nolock in (False, True):
+        log = []
+
+        class CM:
+            def __enter__(s_):
+                log.append('timer-on')
+
+            def __exit__(s_, *a):
+                log.append('timer-off')
+        listeners = _col.defaultdict(list)
+
+        def rule_emit(ev, *a):
+            log.append(('rule-emit', ev, a))
+            for cb in list(listeners[ev]):
+                cb(*a)
+
+        class HelperM:
+            def __init__(s_, rule_):
+                rule_.on('AFTER_APPLY', lambda t: log.append(('helper-hears', t)))
+        tab = _O('tableau', emit=lambda ev, *a: log.append(('tableau-emit', ev, a)), once=lambda ev, cb: log.append(('tableau-once', ev)),
+                 on=lambda ev, cb: log.append(('tableau-on', ev)))
+        rule = _O('rule', __srcclass__=(m, ClassRef(TAB, 'Rule')), emit=rule_emit, on=lambda ev, cb: listeners[ev].append(cb),
+                  once=lambda ev, cb: listeners[ev].append(cb), _apply=lambda t: log.append(('_apply', t)), defaults=dict(nolock=False),
+                  timer_names=('search', 'apply'), Helpers=(HelperM,), name='RuleM')
+
+        class EventsM:
+            BEFORE_APPLY, AFTER_APPLY = 'BEFORE_APPLY', 'AFTER_APPLY'
+
+            def __iter__(s_):
+                return iter(('BEFORE_APPLY', 'AFTER_APPLY'))
+        ita = _I(dict(Rule=_O('Rule', Events=EventsM(), State=_State),
+                      Tableau=_O('Tableau', Events=_O('Events', AFTER_RULE_APPLY='AFTER_RULE_APPLY', AFTER_BRANCH_ADD='AFTER_BRANCH_ADD')),
+                      super=lambda *a: _O('super', __init__=lambda *x, **k: None), MapProxy=dict, for_defaults=lambda d, o: {**d, **o},
+                      StopWatch=CM, SeqCover=lambda d: d, deque=_col.deque), where='Rule.__init__ / Rule.apply')
+        r0 = ita.safe(ri, [rule, tab], dict(nolock=nolock))
+        if isinstance(r0, _Rs):
+            raise AnalysisError(f'Rule.__init__ does not fold: {r0!r}')
+        del log[:]
+        r = ita.safe(ra, [rule, 'TARGET'])
+        core = [x for x in log if isinstance(x, tuple)]
+        pos = lambda x: core.index(x) if x in core else -1
+        told = [x for x in core if x[0] == 'tableau-emit']
+        ok = not isinstance(r, _Rs) and 'final' in astq.decorators(ra) and told == [('tableau-emit', 'AFTER_RULE_APPLY', ('TARGET',))] and \
+            0 <= pos(('rule-emit', 'BEFORE_APPLY', ('TARGET',))) < pos(('_apply', 'TARGET')) < pos(('rule-emit', 'AFTER_APPLY', ('TARGET',))) < \
+            pos(('helper-hears', 'TARGET')) < pos(told[0]) and list(getattr(rule, 'history', ())) == ['TARGET']
+        rep.instance(R2, ok=ok, sample=dict(sequence=[x[:2] for x in core], nolock=nolock), nontrivial=('Rule.apply', nolock))
+        if not ok:
+            rep.finding(R2, f'C16.R2/Rule.apply/nolock={nolock}', m.loc(TAB, ra), 'Rule.apply',
+                        f'with nolock={nolock}, one application is not the @final BEFORE_APPLY -> _apply -> AFTER_APPLY (helpers, rule history) -> AFTER_RULE_APPLY '
+                        f'to the tableau, once, on the target (observed {[x[:2] for x in core]}, rule history {list(getattr(rule, "history", ()))!r}, result {r!r})')
     allowed_apply = {(TAB, 'Tableau.step'), (TAB, 'Rule.test'), ('pytableaux.proof', 'RuleMeta.induce_branching')}
     for mod, qn, fn in astq.iter_functions(m):
         if mod.startswith('pytableaux.web') or mod.startswith('pytableaux.tools.doc'):
